@@ -1,6 +1,7 @@
 package checks
 
 import (
+	"math"
 	"fmt"
 	"math/rand"
 	"strings"
@@ -377,6 +378,15 @@ func (c *Ctx) c16BRun(gs []*gast.Grammar, flagSets [][]string, isLR bool, rng *r
 			id := fmt.Sprintf("b2/%d/%d", i, n)
 			exps[id] = exp{k: k, n: n, exhaust: isBudget(r) || n < r.ExprCnt, base: r}
 			phase2 = append(phase2, &mon.Case{ID: id, Pkg: k.u.Pkg, Input: k.in, Memo: k.memo, Debug: k.dbg, Stats: k.st, MaxExpr: n, MaxEvents: 2000})
+		}
+		if !isBudget(r) && i%4 == 0 {
+			// "practically unlimited" budgets, also when the caller's Stats struct was used before: a
+			// terminating parse never exhausts them
+			for j, n := range []uint64{math.MaxUint64, math.MaxUint64 - 1, math.MaxUint64 - 700, 1 << 63} {
+				id := fmt.Sprintf("b2/%d/huge%d", i, j)
+				exps[id] = exp{k: k, n: n, exhaust: false, base: r}
+				phase2 = append(phase2, &mon.Case{ID: id, Pkg: k.u.Pkg, Input: k.in, Memo: k.memo, Debug: k.dbg, Stats: true, StatsPre: []uint64{0, 1, 777, 5}[j], MaxExpr: n, MaxEvents: 2000})
+			}
 		}
 	}
 	r2 := bt.Run(phase2, batch.RunOpts{MaxDeaths: 4})
